@@ -33,6 +33,9 @@ def main():
     assert rc == 0, out
     try:
         rc, out = sh(f"git apply {os.path.abspath(src)}/patch.diff", cwd=wt)
+        if rc:  # written against an earlier HEAD (before a later fix: commit touched the same lines): three-way merge
+            rc, out = sh(f"git apply -3 {os.path.abspath(src)}/patch.diff && git reset -q", cwd=wt)
+            res["applied_three_way"] = rc == 0
         res["applies"] = rc == 0
         if rc:
             res["apply_output"] = out[-500:]
